@@ -141,7 +141,7 @@ class Binder:
             m = re.match(r'^se(\d)cret\1x*$', o)
             if m:
                 return {'k': 'str', 'len': len(o), 'ok': True, 'u': int(m.group(1))}
-            body = o[:-1] if o.endswith('Z') else o
+            body = o[:-1] if o.endswith(('Z', '\n')) else o
             u = 1 if 'é' in o else 0
             if len(o) >= 3:
                 # texts of three or more characters carry a space in second position (stonegen.concrete_str)
@@ -150,7 +150,7 @@ class Binder:
                 body = body[0] + body[2:]
             if body.strip('aé') != '' or (u and 'a' in body):
                 raise Unprojectable('str %r' % (o,))
-            return {'k': 'str', 'len': len(o), 'ok': not o.endswith('Z'), 'u': u}
+            return {'k': 'str', 'len': len(o), 'ok': not o.endswith(('Z', '\n')), 'u': u}
         if k == 'bytes':
             if not isinstance(o, bytes):
                 raise Unprojectable('bytes %r' % (o,))
